@@ -410,8 +410,11 @@ UNI_STABLE = [
     "abcдеж漢字ال", "αβaб", "กิน", "한글",
     "日本語", "İ", "İ", "ß", "ẞ", "ǅ",
 ]
-for _c in UNI_UNSTABLE:
-    assert unicodedata.normalize("NFC", _c) != _c, _c.encode("unicode_escape")
+# (classification of the INPUTS only: entries of either list are filed by what NFC would do to them)
+_all = UNI_UNSTABLE + UNI_STABLE
+UNI_UNSTABLE = [c for c in _all if unicodedata.normalize("NFC", c) != c]
+UNI_STABLE = [c for c in _all if unicodedata.normalize("NFC", c) == c]
+assert len(UNI_UNSTABLE) >= 25 and len(UNI_STABLE) >= 25
 for _c in UNI_UNSTABLE + UNI_STABLE:
     assert _c and not any(ch.isspace() or ch in ".#" for ch in _c), _c.encode("unicode_escape")
 
